@@ -684,9 +684,15 @@ pub fn parse_output_format(
 		}
 	};
 
-	let check_nonzero = &mut |value: usize| -> bool
+	// The listing formats compute widths in bits and
+	// in columns from the group size: it must leave room
+	let check_valid_group = &mut |value: usize| -> bool
 	{
-		value > 0
+		value > 0 &&
+		value
+			.checked_add(1)
+			.and_then(|v| v.checked_mul(8))
+			.is_some()
 	};
 
 	let check_valid_base = &mut |base: usize| -> bool
@@ -711,7 +717,7 @@ pub fn parse_output_format(
 
 			"annotated" => OutputFormat::Annotated {
 				base: get_arg_usize("base", 16, check_valid_base)?,
-				group: get_arg_usize("group", 2, check_nonzero)?,
+				group: get_arg_usize("group", 2, check_valid_group)?,
 			},
 
 			"annotatedhex" => OutputFormat::Annotated {
@@ -751,7 +757,7 @@ pub fn parse_output_format(
 
 			"tcgame" => OutputFormat::TCGame {
 				base: get_arg_usize("base", 16, check_2_or_16)?,
-				group: get_arg_usize("group", 2, check_nonzero)?,
+				group: get_arg_usize("group", 2, check_valid_group)?,
 			},
 
 			"tcgamebin" => OutputFormat::TCGame {
